@@ -425,6 +425,10 @@ def run_property(modname: str, tier: str, seed: int) -> int:
                     return 2
                 confirmed = any(x["key"] == k for x in res["viol"])
                 rekeys = [x["key"] for x in res["viol"]]
+            if not confirmed and v.get("racy"):
+                # thread-timing dependent observation (C18): a single observation is a violation by itself
+                v["detail"] = str(v["detail"]) + " [observed once; did not recur on re-execution: timing dependent]"
+                confirmed = True
             if not confirmed:
                 print(f"HARNESS ERROR: violation {k} did not reproduce on re-execution (non-determinism); "
                       f"re-execution gave {rekeys}")
